@@ -1,5 +1,6 @@
 """C16 - closed-form clique and cycle equations and their graph counts are exact."""
 import itertools
+from fractions import Fraction
 from functools import lru_cache
 from math import comb
 
@@ -41,6 +42,11 @@ def instances(tier, seed):
         step = 64 if n < 5 else 16
         for i in range(0, len(masks), step):
             yield {"kind": "counter", "n": n, "masks": masks[i:i + step]}
+    # sparse connected 6-vertex substrates up to isomorphism (two triangles joined by a bridge, ...), vertex subsets
+    # of >= 5 of the 6 vertices
+    six = [es for nn, es in enumr.atlas_connected(6, 6, max_edges=8 if tier == "quick" else 10)]
+    for i in range(0, len(six), 3):
+        yield {"kind": "counter", "n": 6, "graphs": six[i:i + 3], "min_r": 4}
 
 
 def connected_counts(n):
@@ -132,6 +138,25 @@ def run_instance(inst, tier):
                 except Exception as e:
                     res.violation("C16:clique-equation-raises", f"tau={tau} blocks {part}: {e!r}", inst)
                     break
+        # boundary values as plain numbers: every assignment of {0, 1/2, 1} (ints, floats, Fractions mixed) to the
+        # neighbour values, phi = 0.45
+        if tau <= 6:
+            forms = {0: (0.0, 0, Fraction(0)), 1: (1, 1.0, Fraction(1)), 2: (0.5, Fraction(1, 2), 0.5)}
+            for ci, combo in enumerate(itertools.product((0, 1, 2), repeat=tau - 1)):
+                hs = [forms[c][(ci + j) % 3] for j, c in enumerate(combo)]
+                env = {"p": Fraction(9, 20), "u0": Fraction(1)}
+                env.update({f"u{v}": Fraction(hs[v - 1]) for v in verts[1:]})
+                w = float(want.subs(env))
+                res.executions += 1
+                try:
+                    g = float(clique_equation(tau, 0.45, list(hs)))
+                except Exception as e:
+                    g = e
+                if isinstance(g, Exception) or abs(g - w) > 1e-12:
+                    res.violation("C16:clique-equation-boundary-values", f"tau={tau} phi=0.45 neighbour values {hs!r}: "
+                                  f"clique_equation gives {g!r}, exact value {w}", inst)
+                    break
+            res.flags.add("boundary-values")
         # also with all neighbours equal and with numeric phi (common usage)
         uu = Poly.var("u")
         want2 = perc.expectation_poly(verts, edges, 0, p, {v: uu for v in verts})
@@ -231,14 +256,17 @@ def run_instance(inst, tier):
         from gcmpy.message_passing.number_connected_graphs import number_of_connected_graphs
         n = inst["n"]
         labelings = [list(range(n))] + ([[7, 3, 12, 5][:n]] if n <= 3 else [])   # also non-contiguous, unsorted labels
-        for mask, lab in [(m, l) for m in inst["masks"] for l in labelings]:
-            edges = [(lab[a], lab[b]) for a, b in enumr.mask_edges(n, mask)]
+        min_r = inst.get("min_r", 0)
+        todo = [(m, enumr.mask_edges(n, m), l) for m in inst.get("masks", []) for l in labelings]
+        todo += [(None, [tuple(e) for e in es], list(range(n))) for es in inst.get("graphs", [])]
+        for mask, base_edges, lab in todo:
+            edges = [(lab[a], lab[b]) for a, b in base_edges]
             G = nx.Graph()
             G.add_nodes_from(lab)
             G.add_edges_from(edges)
             for i in lab:
                 others = [v for v in lab if v != i]
-                for r in range(0, n):
+                for r in range(min_r, n):
                     for ak in itertools.combinations(others, r):
                         sub = set(ak) | {i}
                         sube = [e for e in edges if e[0] in sub and e[1] in sub]
@@ -264,7 +292,8 @@ def run_instance(inst, tier):
                             if got != want:
                                 res.violation("C16:counter", f"substrate edges={edges} focal={i} ak={list(ak)} k={k}: "
                                               f"number_of_connected_graphs = {got}, enumeration gives {want}",
-                                              {"kind": "counter", "n": n, "masks": [mask]})
+                                              {"kind": "counter", "n": n, "masks": [mask]} if mask is not None else
+                                              {"kind": "counter", "n": n, "graphs": [base_edges], "min_r": min_r})
                                 if len(res.violations) > 5:
                                     return res
                             if want:
